@@ -51,6 +51,9 @@ static const int h_sample_profiles[5] = {
 };
 
 static double site_pos[NS + 1];
+#ifdef H_EXTRA_ROWS
+static void h_extra_rows(tsk_table_collection_t *t, h_tables_t *T);
+#endif
 
 /* Returns 0 when a valid tree sequence was built in *ts; otherwise the path ended
  * with tag "reject" (callers return). */
@@ -126,11 +129,21 @@ h_build_treeseq(tsk_table_collection_t *t, tsk_treeseq_t *ts, h_tables_t *T)
         ret = tsk_site_table_add_row(&t->sites, site_pos[j], "A", 1, NULL, 0);
         sym_assume(ret == j);
     }
+#ifdef H_EXTRA_ROWS
+    h_extra_rows(t, T); /* harness-specific rows (mutations, individuals, ...) added before indexing */
+#endif
     ret = tsk_table_collection_build_index(t, 0);
     if (ret != 0) {
         sym_reach("reject");
         return 1;
     }
+#ifdef H_COMPUTE_MUTATION_PARENTS
+    ret = tsk_table_collection_compute_mutation_parents(t, 0);
+    if (ret != 0) {
+        sym_reach("reject");
+        return 1;
+    }
+#endif
     ret = tsk_treeseq_init(ts, t, 0);
     if (ret != 0) {
         sym_reach("reject");
